@@ -77,7 +77,7 @@ class Registry:
             "StopIteration": "Exception", "NotImplementedError": "RuntimeError", "RecursionError": "RuntimeError",
             "KeyboardInterrupt": "BaseException", "ZeroDivisionError": "ArithmeticError", "ArithmeticError": "Exception",
             "FormulaError": "Exception", "DeepReferenceError": "Exception", "NoneReturnedError": "Exception",
-            "DeletedObjectError": "Exception",
+            "DeletedObjectError": "Exception", "NetworkXError": "Exception",
         }
         self.lemmas = []             # (name, fn(L) -> list[(label, hyps, goal)])
         self.assumptions = []
